@@ -88,7 +88,10 @@ func addSafely(l list.AclList, raw *consensusproto.RawRecordWithId) (err error, 
 	return l.AddRawRecord(raw), ""
 }
 
+type asked struct{ prop, stream, line, impl string }
+
 type session struct {
+	q        []asked
 	r        *corr.Run
 	c        *cast
 	useModel bool
@@ -97,16 +100,35 @@ type session struct {
 
 func (s *session) wants(p string) bool { return s.prop == "" || s.prop == p }
 
-// ask sends a line to the model (if attached) and compares.
+// ask queues a line for the model (if attached) together with what the implementation answered;
+// flush sends the whole history in one round trip (`walk a | b | …`) and compares answer by answer.
 func (s *session) ask(prop, stream string, w *world, line, impl string) {
 	w.lines = append(w.lines, line)
-	if !s.useModel {
+	if s.useModel {
+		s.q = append(s.q, asked{prop, stream, line, impl})
+	}
+}
+
+func (s *session) flush() {
+	if len(s.q) == 0 {
 		return
 	}
-	m := s.r.Ask(line)
-	if m != impl {
-		s.r.Check(prop, stream, append([]string{}, w.lines...), m, impl)
+	ls := make([]string, len(s.q))
+	for i, a := range s.q {
+		ls[i] = a.line
 	}
+	ans := strings.Split(s.r.Ask("walk "+strings.Join(ls, " | ")), " | ")
+	for i, a := range s.q {
+		m := "missing-answer"
+		if i < len(ans) {
+			m = ans[i]
+		}
+		if m != a.impl {
+			s.r.Check(a.prop, a.stream, append([]string{}, ls[:i+1]...), m, a.impl)
+			break // later answers depend on the diverged model state
+		}
+	}
+	s.q = s.q[:0]
 }
 
 // walkC04: one history on the reference list; every record goes through oracle and model.
@@ -124,9 +146,9 @@ func (s *session) walkC04(steps int) {
 	g := &gen{r: r, w: w}
 	g.s = w.snapshot(ref)
 	if s.useModel {
-		m := r.Ask(w.lines[0])
-		r.Check("", "acl.root", []string{w.lines[0]}, m, "ok "+g.s.String())
+		s.q = append(s.q, asked{"", "acl.root", w.lines[0], "ok " + g.s.String()})
 	}
+	defer s.flush()
 	branches := map[string]bool{}
 	changed := false
 	for i := 0; i < steps && r.TimeLeft(); i++ {
@@ -136,7 +158,14 @@ func (s *session) walkC04(steps int) {
 		}
 		author, cs, label := g.next(pValid)
 		pre := g.s
-		b := w.build(author, len(w.recs)-1, cs, tamper{})
+		prev := len(w.recs) - 1
+		if r.Chance(3) { // chain guard: a record that does not extend the head
+			prev = r.Intn(len(w.recs) + 2)
+			if prev == len(w.recs) {
+				prev += 2
+			}
+		}
+		b := w.build(author, prev, cs, tamper{})
 		var stBefore list.Storage
 		var wBefore *world
 		if len(cs) > 1 {
@@ -205,12 +234,15 @@ func Run(r *corr.Run) {
 		r.Fatal("cast: " + err.Error())
 	}
 	s := &session{r: r, c: c, useModel: len(r.ModelCmd) > 0 && os.Getenv("ACL_NOMODEL") == "", prop: os.Getenv("VERIF_PROPERTY")}
-	walks := r.Pick(400, 12000)
+	walks := r.Pick(900, 40000)
 	for i := 0; i < walks && r.TimeLeft(); i++ {
-		if s.useModel {
-			r.RestartModel()
+		if i%4 == 3 && s.wants("C03") {
+			s.walkC03(30, i%8 == 7)
+		} else if s.wants("C04") || i%4 == 0 {
+			s.walkC04(40)
+		} else {
+			s.walkC03(30, i%8 == 5)
 		}
-		s.walkC04(40)
 		if r.Issues() >= 20 {
 			break
 		}
